@@ -201,6 +201,13 @@ def check(ctx):
     ctx.floor(R4, "File::open in read_cnf", len(opens), 1)
     ctx.floor(R4, "visited-set test in read_cnf", len(cont), 1)
     ctx.floor(R4, "visited-set insertion in read_cnf", len(ins), 1)
+    # the include list is walked as listed: no sort / dedup / reverse / retain on it (a later-included [global] overrides an earlier one,
+    # so the order is part of the documented behaviour)
+    REORDER = ("sort", "sort_unstable", "sort_by", "sort_by_key", "sort_unstable_by", "sort_unstable_by_key", "dedup", "dedup_by", "dedup_by_key", "reverse", "retain", "swap", "rotate_left",
+               "rotate_right", "swap_remove", "truncate", "drain", "pop")
+    reord = [c for c in rc.calls if c.bb in rc.live_blocks() and (c.name or "").rsplit("::", 1)[-1] in REORDER and c.args and (CFG, "include") in arg_origins(c, 0).fields]
+    ctx.require(R4, not reord, reord[0].where() if reord else "%s:%s" % (rc.file, rc.line), "the include list is walked in the order it is written (%s)" % [c.name.rsplit("::", 1)[-1] for c in reord],
+                ["config::read_cnf", "include-order"])
     for c in cont:
         ctx.require(R4, arg_origins(c, 1).via_any("std::path::Path::canonicalize"), c.where(), "the visited test uses the canonical path", ["config::read_cnf", "test-canonical"])
     for c in ins:
